@@ -235,6 +235,12 @@ pub fn run(ctx: &mut Ctx) {
                     _ => 0xDC00,
                 };
                 units.insert(pos, s);
+                // the unit right after (or before) an unpaired surrogate at the edges of the surrogate ranges
+                if t.chance(30) {
+                    let edge = *t.pick(&[0xE000u16, 0xD7FF, 0xFFFF, 0xFFFE, 0xFFFD, 0xFEFF, 0xDFFF, 0xDC00, 0xDBFF, 0xD800, 0x0000, 0x000A]);
+                    let at = if t.chance(70) { pos + 1 } else { pos };
+                    units.insert(at.min(units.len()), edge);
+                }
             }
             let le = t.chance(50);
             let tail = if t.chance(25) { Some(t.byte()) } else { None };
